@@ -8,6 +8,18 @@ TRUST = ("Trusted base: rustc 1.95/std, the noodles-vcf/bcf/bgzf, flate2, nom an
 
 # id -> (category, technique, text, note, design_ref)
 CHECKS = {
+ "C01": ("exploration",
+         "bounded-exhaustive enumeration of genotype-class rows x sample->population maps on the real site reader and the real binary, against a reference computed from the classes",
+         "Every sample map (each sample unselected or in population 0..3) over <=4 samples (thorough 5) x every row of genotype classes {0,1,2 ALT, missing, multiallelic}: each (map,row) as a single record, every 2-record sequence for 3 samples, and all rows in one stream, through the real site::Reader fed by an in-memory genotype source; unselected samples additionally given non-diploid genotypes. At L2 `sfs create -s` on generated VCFs: every (map,row) one-record file for 3 samples (thorough 4), the every-row call set as vcf, vcf.gz, bcf and raw bcf, and six decorations (extra INFO/FORMAT fields, two contigs, monomorphic, multi-ALT, all-missing, all-phased) as vcf and bcf. stdout must be the exact '#SHAPE' header plus exact integers.",
+         TRUST + "Call sets with >5 samples or >4 populations are outside the bound; per-record processing is one uniform loop over samples.", "3 C01"),
+ "C02": ("exploration",
+         "bounded-exhaustive enumeration of class rows x maps x every projection target on the real projecting site reader and binary, against an exact hypergeometric reference",
+         "Every sample map with <=2 populations (thorough <=3) of <=3 samples x every class row x every admissible target vector (m_j from 0 to the chromosome count), single records and the all-rows stream, through the real site::Reader with projection: skip decisions compared exactly, contributions within 1e-8 relative; the three site outcomes exact/projectable/insufficient are all reached and counted. Single-population cohorts of 100..1000 (thorough 2000) samples on a boundary grid that includes the 170!/171! table boundary and the former f64 overflow at 1030 chromosomes. At L2 `sfs create -s .. --project-shape / -p --precision p` for all 14 maps of 3 samples x all targets, -p vs --project-shape byte identity, precision 0/3/6/12, and the skipped count on stderr.",
+         TRUST + "Cohort sizes between the grid points and >3 populations under projection are outside the bound.", "3 C02"),
+ "C08": ("exploration",
+         "complete enumeration of the finite GT-string alphabet through the real VCF and BCF decoding paths",
+         "All 942 GT strings over alleles {., 0, 1, 2, 3, 10}, separators {/,|} and ploidy 1..3 x {vcf, raw bcf, vcf.gz, bcf} x {probe sample selected, unselected}, through the real format detection, noodles decoding, classification and site reader (L1), and `sfs create -vv` for all strings of ploidy <=2 and every tenth (thorough: every) ploidy-3 string with the 'Skipping sample .. Reason' trace lines and the error message naming contig:position as part of the observation (L2). The alphabet is finite and enumerated completely, so the check decides the classification rule on it.",
+         TRUST + "A bare '.' GT may be classified as missing or as a ploidy error (the statement does not decide it). Allele indices other than those listed and ploidy >3 follow the same code path and are not enumerated.", "3 C08"),
  "C03": ("exploration",
          "bounded-exhaustive enumeration of projection-operator coefficients, basis-vector images and algebraic laws on the real code, against an exact-integer hypergeometric reference",
          "Every coefficient hypergeometric_pmf(N,K,n,k) for all arguments with N<=60 (thorough N<=200, crossing the 170! table boundary) plus a ladder of sizes up to 4 000 (thorough 40 000) chromosomes; Spectrum::project on every basis vector of every shape with <=3 axes (lengths <=4, thorough <=5; 4 axes at lengths <=2/3) for every admissible target, which decides the linear operator on those shapes; mass, non-negativity, bit-exact identity, two-step via every intermediate shape, commutation with marginalization, project(create)==create --project on complete call sets; every invalid target in a box; `sfs view --project-shape/-p` at L2. Exhaustive in the stated bound.",
